@@ -24,7 +24,7 @@ RULE = ('cases = (configuration, operator, base operand(s) = canonical sparse ke
 ASSUMPTIONS = ['sqrt/norm/normalized/exp are compared only inside the domain C19 states (Study numbers with positive scalar part, simple elements)',
                'value types: generic ring P, fraction field R for inv/div/outertan, floats with tolerance 1e-9 for sqrt/exp/norm']
 BOUNDS = {
-    'quick': 'd=2 (3 configurations): base subsets <=2 blades, every layout of one operand vs canonical other + diagonal, all operators; d=3 (2 configurations): '
+    'quick': 'd=2 (2 configurations binary, 3 unary): base subsets <=2 blades, every layout of one operand vs canonical other + diagonal, all operators; d=4 polynomial unary operators on a 24-subset menu; d=3 (2 configurations): '
              'unary operators on subsets <=2 blades, binary on an 8-subset menu',
     'thorough': 'd=2: full product L(x) x L(y); d=3 (pqr(3) + 4 mixed orderings): unary on subsets <=3 blades, binary on subsets <=2 blades (one-sided + diagonal); '
                 'd=4: grade-block bases with dense layouts',
@@ -38,8 +38,9 @@ def shards(tier, seed):
         return [dict(stratum=stratum, cfg=cfg, kind=kind, base=list(base), chunk=(i, n), **kw) for i in range(n)]
     d2 = [spaces.cfg_pqr(2, 0, 0), spaces.cfg_pqr(1, 0, 1), spaces.cfg_sig([-1, 1])]
     for c in d2:
-        sh += mk('d=2: binary operators, base subsets <=2 blades, ' + ('full layout product' if tier == 'thorough' else 'one-sided layouts + diagonal'),
-                 c, 'bin', ('S', 2), 8, full=(tier == 'thorough'))
+        if tier == 'thorough' or c != d2[2]:
+            sh += mk('d=2: binary operators, base subsets <=2 blades, ' + ('full layout product' if tier == 'thorough' else 'one-sided layouts + diagonal'),
+                     c, 'bin', ('S', 2), 8, full=(tier == 'thorough'))
         sh += mk('d=2: unary operators, all base subsets', c, 'un', ('S', None), 2)
         sh += mk('float-valued operators (sqrt, norm, normalized, exp, **0.5) on Study numbers / simple elements', c, 'float', ('S', 2), 1)
     d3q = [spaces.cfg_pqr(3, 0, 0), spaces.cfg_pqr(2, 0, 1)]
